@@ -2,6 +2,7 @@ package main
 
 import (
 	"encoding/json"
+	"regexp"
 	"fmt"
 	"os"
 	"path/filepath"
@@ -19,6 +20,7 @@ type KnownFinding struct {
 	Witness    string `json:"witness"`
 	What       string `json:"what"`
 	Commit     string `json:"commit,omitempty"`
+	WitnessRe  string `json:"witness_regex,omitempty"` // stand-in findings: failing inputs covered by this entry
 }
 
 type KnownFile struct {
@@ -167,13 +169,26 @@ func (r *Run) report() int {
 	}
 	// bounded stand-ins
 	sres := r.runStandins()
+	printedKF := map[string]bool{}
 	for _, s := range sres {
 		for _, f := range s.Failures {
 			known := false
 			for _, k := range loadKnown().Findings {
-				if k.Status == "known" && k.Property == r.prop && k.Obligation == "standin:"+s.Name && strings.Contains(f, k.Witness) {
+				if k.Status != "known" || k.Property != r.prop || k.Obligation != "standin:"+s.Name {
+					continue
+				}
+				hit := k.WitnessRe == "" && strings.Contains(f, k.Witness)
+				if k.WitnessRe != "" {
+					if re, err := regexp.Compile(k.WitnessRe); err == nil && re.MatchString(f) {
+						hit = true
+					}
+				}
+				if hit {
 					known = true
-					fmt.Printf("KNOWN-FINDING: property=%s standin:%s %s (witness: %s)\n", r.prop, s.Name, k.What, k.Witness)
+					if !printedKF[k.Obligation+k.What] {
+						printedKF[k.Obligation+k.What] = true
+						fmt.Printf("KNOWN-FINDING: property=%s standin:%s %s (witness: %s)\n", r.prop, s.Name, k.What, k.Witness)
+					}
 				}
 			}
 			if known {
@@ -306,6 +321,7 @@ func (r *Run) writeEvidence(nOb, nDis int, under, trusted, summarised, external,
 		"slowest":                  slowest,
 		"samples":                  samples,
 		"undecided":                undecided,
+		"sweep_units_not_claimed":  r.unclaimed,
 		"vacuity":                  map[string]interface{}{"canaries_sat": r.canarySat, "canaries_unknown": r.canaryUnknown, "vacuous_units": r.vacuous, "rule": "for every unit the hypotheses of its last obligation are checked satisfiable (5 s); unsat would mean a vacuous proof and is reported as a failure"},
 		"structural_scan":          "established_by: objects of types with an invariant are created / written only in the listed constructors (checked on the typed AST of the whole module on every run)",
 		"explanation":              explanationOf(r.prop, nOb, nDis, undecided, sres),
